@@ -256,7 +256,14 @@ def run(case):
             variants = [(cov, None) for cov in ((1.0, 0.6, 0.5, 0.34) if not light else (1.0, 0.6))]
             if not cyc and not light:
                 variants += [(None, 0.5), (None, 1.0)]
+            if not cyc:
+                # the arcs carry a length attribute and the model is told about it (length_attr), but the coverage is still asked for
+                # in numbers of edges: the lengths must not change anything
+                variants += [(cov, "attr_only") for cov in ((1.0, 0.6) if not light else (1.0,))]
             for cov, covlen in variants:
+                attr_only = covlen == "attr_only"
+                if attr_only:
+                    covlen = None
                 cons_sets = []
                 for c in cset:
                     if covlen is not None:
@@ -275,11 +282,16 @@ def run(case):
                         use = dict(inst, lengths={f"{u}|{v}": lengths[(u, v)] for (u, v) in E})
                     else:
                         kw[ccov] = cov
+                        if attr_only:
+                            kw["length_attr"] = "length"
+                            use = dict(inst, lengths={f"{u}|{v}": 2 + lengths[(u, v)] for (u, v) in E})
                     if greedy is False:
                         kw["optimization_options"] = {"optimize_with_greedy": False}
                     obs = drivers.observe(dict(use, cls=Min, kw=kw))
                     tags["cons_mfd"] += 1
-                    ctx = f"{Min}(constraints={cset}, coverage={cov}, coverage_length={covlen}, greedy={greedy})"
+                    if attr_only:
+                        tags["cons_mfd_length_attr_with_edge_count_coverage"] += 1
+                    ctx = f"{Min}(constraints={cset}, coverage={cov}, coverage_length={covlen}, greedy={greedy}{', length_attr given (lengths 3..5)' if attr_only else ''})"
                     if obs["exc"] or not obs["solved"]:
                         viol.append({"kind": "constraint_model_failed", "msg": f"{ctx}: exc={obs['exc']} solved={obs['solved']}; a decomposition with {opt} routes satisfying the constraints exists"})
                         continue
@@ -291,7 +303,7 @@ def run(case):
                     elif len(routes) != opt:
                         viol.append({"kind": "constrained_optimum_wrong", "msg": f"{ctx}: {len(routes)} routes, the minimum over constraint-satisfying decompositions is {opt}", "routes": routes, "weights": obs["sol"]["weights"]})
                     else:
-                        nt.append(f"{key}|{cset}|{cov}|{covlen}|{greedy}")
+                        nt.append(f"{key}|{cset}|{cov}|{covlen}|{greedy}|{attr_only}")
             if len(viol) > 4:
                 break
 
